@@ -134,6 +134,17 @@ PROPS['C18'] = {
     'trust': ['ASSUMED contract of encoding_rs::Decoder (stub in kani/encoding_harness.rs, from the crate documentation); String::reserve/push modelled by capacity/length counters; format! stubbed'],
 }
 
+PROPS['C08'] = {
+    'units': [],
+    'extra': ['kengine'],
+    'level': 'model_checking',
+    'claim': 'BOUNDED (Kani/CBMC, not a proof): the real Scalar::parse_from_cow / parse_from_cow_and_metadata / ScalarOwned variants are compared with an executable transcription of the YAML 1.2.2 core schema (10.3.2) and of the property statement, for every string of length 1..3 (quick; ..5 thorough) over the 38-symbol alphabet of the property, every tag choice and every non-plain style. i64 parsing runs the real std code; f64::from_str is replaced by a stub of its documented grammar, so the numeric value of an accepted decimal float is trusted to std.',
+    'technique': 'Kani contract harnesses of the real resolver against an executable core-schema oracle (bounded stand-in; strings up to length 3 quick / 5 thorough)',
+    'checker_cmd': 'cargo kani -Z function-contracts -Z stubbing --harness c08_...',
+    'not_decided': ['strings longer than the bound and characters outside the alphabet', 'boundary integers around +-2^63 beyond the length bound', 'the value of decimal floats (std dec2flt, stubbed)', 'value_from_cow_and_metadata -> BadValue mapping in macros.rs and the early_parse switch of the loader (C19/C07 scope)'],
+    'trust': ['ASSUMED contract of <f64 as FromStr>::from_str (grammar from the std documentation; stub in kani/scalar_harness.rs)'],
+}
+
 
 def trusted_base(pid):
     if not PROPS[pid].get('units'):
